@@ -90,6 +90,12 @@ func genLeakCase(t *rapid.T) *LeakCase {
 			lc.FillStatus = rapid.SampledFrom([]int{0, 1, 2, 3, 4}).Draw(t, "fillstatus")
 		}
 	}
+	// twin types (twin_test.go): in about 1 of 22 leak cases one carrier's type holds a value of a twin type (rapid
+	// draws the upper bound of 0..24 in 4-5% of the draws; the shrinker moves towards 0, away from the class)
+	if rapid.IntRange(0, 24).Draw(t, "twin") == 24 {
+		i := rapid.IntRange(0, len(lc.Carriers)-1).Draw(t, "twincarrier")
+		lc.Carriers[i].T = genTwinTop(t)
+	}
 	return lc
 }
 
@@ -128,7 +134,7 @@ func validLeak(lc *LeakCase) error {
 		if c.Slot < 0 || c.Slot > slotMax || c.FailedBefore < 0 || c.FailedBefore > 2 || c.Status < 0 || c.Status > 4 {
 			return fmt.Errorf("bad placement")
 		}
-		if c.T.K != kStruct && c.T.K != kRec {
+		if c.T.K != kStruct && c.T.K != kRec && c.T.K != kTwin {
 			return fmt.Errorf("request type must be a struct")
 		}
 		leaves := 0
@@ -195,6 +201,13 @@ func checkLeak(lc *LeakCase, res *vprop.Result) {
 	f := &failer{res: res, seen: map[string]bool{}}
 	ctx := context.Background()
 
+	// twin types: the primer of every carrier that holds a twin value runs first, in this process (twin_test.go)
+	for i := range lc.Carriers {
+		if len(twinRefs(&lc.Carriers[i].T, nil)) > 0 {
+			runTwinPrimer(&lc.Carriers[i], res)
+		}
+	}
+
 	orig := buildPlan(lc)
 	twin := buildPlan(lc) // the pre-call snapshot: same construction, disjoint memory
 	if !reflect.DeepEqual(orig.plan, twin.plan) {
@@ -243,6 +256,30 @@ func checkLeak(lc *LeakCase, res *vprop.Result) {
 			// a secure-tagged field of a family struct that is reached through another family struct
 			res.Label("rec:secure-canary-in-nested-struct-of-recursive-type")
 			break
+		}
+	}
+	// twin types (twin_test.go)
+	for i := range lc.Carriers {
+		if lc.Carriers[i].T.K == kTwin {
+			res.Label("twin:as-request/response-type")
+		}
+		for _, w := range twinRefs(&lc.Carriers[i].T, nil) {
+			res.Label("twin:present")
+			res.Label("twin:pair:" + twinPairNames[w.Pair])
+			if w.Secret {
+				res.Label("twin:secret-after-benign-primer")
+			} else {
+				res.Label("twin:benign-after-secret-primer")
+			}
+		}
+	}
+	for _, c := range orig.canaries {
+		if strings.HasSuffix(classOf(c), ":twin-type") {
+			if c.Secret {
+				res.Label("twin:secure-canary-in-twin-value")
+			} else if !c.Ignored {
+				res.Label("twin:untagged-canary-in-twin-value")
+			}
 		}
 	}
 	nSecret, nOpen := 0, 0
@@ -400,6 +437,29 @@ func checkLeak(lc *LeakCase, res *vprop.Result) {
 		return
 	}
 	judgeRender(f, res, lc)
+}
+
+// runTwinPrimer passes the primer of a carrier (the same request with the other member of every twin pair) through
+// clone.Plan with default options and through reports.Render. Nothing is judged here: the results are dropped, panics
+// are recovered and labelled.
+func runTwinPrimer(c *Carrier, res *vprop.Result) {
+	ctx := context.Background()
+	pc := twinPrimerCase(c)
+	for _, run := range []func(p *workflow.Plan){
+		func(p *workflow.Plan) { _ = clone.Plan(ctx, p) },
+		func(p *workflow.Plan) { _, _ = reports.Render(ctx, p) },
+	} {
+		vb := buildPlan(pc) // each call gets its own copy
+		func() {
+			defer func() {
+				if recover() != nil {
+					res.Label("panic:twin-primer")
+				}
+			}()
+			run(vb.plan)
+		}()
+	}
+	res.Label("twin:primer-ran")
 }
 
 // recRoots lists the recursive-type values inside a shape.
